@@ -12,6 +12,7 @@ CONSTANTS
   Horizon = 100000000
   AllowFaults = TRUE
   AllowCancel = FALSE
+  AllowStall = TRUE
   AbstractTime = FALSE
   LeakSearchIdOnDone = TRUE
   AbandonKeepsTargetId = TRUE
